@@ -120,8 +120,10 @@ int RePair::extractStringAndCompareRP(uint id, uchar *str, uint strLen) {
       if (cmp != 0)
         break;
     } else {
-      if ((uchar)next != str[pos])
-        return (int)((uchar)next - str[pos]);
+      if ((uchar)next != str[pos]) {
+        cmp = (int)((uchar)next - str[pos]);
+        break;
+      }
       pos++;
     }
 
